@@ -165,6 +165,10 @@ type C04Action struct {
 	// value XORed into it (never 0).
 	Offset int  `json:"offset,omitempty"`
 	Xor    byte `json:"xor,omitempty"`
+	// modify, alternative form: write Value into the byte instead (Set = true); if
+	// the byte already has that value nothing changes and the run checks nothing.
+	Set   bool `json:"set,omitempty"`
+	Value byte `json:"value,omitempty"`
 	// insert: what to put in front of the frame: "empty" (a zero-length partial
 	// frame), "dup" (a copy of the frame), "junk" (a small complete frame).
 	Variant string `json:"variant,omitempty"`
@@ -315,11 +319,15 @@ func (r *C04Relay) pump(dir string, from, to *C04Conn, log *C04DirLog) {
 			if off >= len(out) {
 				off = len(out) - 1
 			}
-			x := a.Xor
-			if x == 0 {
-				x = 1
+			if a.Set {
+				out[off] = a.Value
+			} else {
+				x := a.Xor
+				if x == 0 {
+					x = 1
+				}
+				out[off] ^= x
 			}
-			out[off] ^= x
 		case hit && a.Kind == "insert":
 			var ins []byte
 			switch a.Variant {
